@@ -599,6 +599,15 @@ func (g *qgen) genCfg(backend string) jcfg {
 	if backend == "memory" && r.chance(25) {
 		c.PressureRaw = pick(r, []int{1, 2, 4})
 	}
+	if backend == "memory" && (g.profile == "admit" || g.profile == "mix") && r.chance(20) {
+		// the corner where every refusal reason can hold at once: small depth, drop_oldest, delivered retention
+		// (delivered items count towards depth and towards memory pressure), tight pressure limit
+		c.MaxDepth = pick(r, []int{2, 3})
+		c.DropOldest = true
+		c.DeliveredRet = int64(300e9)
+		c.PressureRaw = pick(r, []int{1, 2})
+		c.PruneInterval, c.Retention, c.DlqRet, c.DlqDepth = 0, 0, 0, 0
+	}
 	c.PressureItems = effectivePressure(c)
 	return c
 }
@@ -816,6 +825,10 @@ func (g *qgen) genOp() jop {
 	}[g.profile]
 	if w == nil {
 		w = []int{18, 5, 18, 9, 6, 3, 4, 3, 2, 2, 3, 3, 2, 2, 2, 2, 2, 1, 3, 2, 1, 3, 1}
+	}
+	if g.cfg.PressureRaw > 0 && g.cfg.DeliveredRet > 0 {
+		// pressure corner: the interesting states need successful acks between enqueues
+		w = []int{34, 6, 24, 22, 3, 1, 2, 3, 1, 1, 1, 1, 1, 0, 0, 0, 0, 0, 0, 0, 0, 1, 0}
 	}
 	if g.cfg.Backend == "memory" {
 		w[22] = 0
